@@ -249,6 +249,12 @@ func (ex *Exec) runVC() {
 					ex.addObl(fmt.Sprintf("inv-entry@loop%d", li.ord), inv.Label, t, pc, inv.Src, fmt.Sprintf("%s:%d", inv.File, inv.Line))
 				}
 			}
+			// built-in invariant of range-over-slice loops: the hidden index starts at -1 and only grows
+			for phi, t := range phiEntry {
+				if phi.Comment == "rangeindex" && g.mode == "int" {
+					ex.addObl(fmt.Sprintf("inv-entry@loop%d", li.ord), "auto-rangeindex-"+phi.Name(), fmt.Sprintf("(<= (- 1) %s)", t), pc, "range index >= -1 (built-in)", "")
+				}
+			}
 			// 2. havoc loop targets
 			comps, locals, all := ex.loopWrites(li)
 			if all {
@@ -282,6 +288,11 @@ func (ex *Exec) runVC() {
 				ex.vals[phi] = n
 				if rf := g.rangeFact(phi.Type(), n); rf != "" {
 					g.addFact(rf)
+				}
+			}
+			for phi := range phiEntry {
+				if phi.Comment == "rangeindex" && g.mode == "int" {
+					g.assume(pc, fmt.Sprintf("(<= (- 1) %s)", ex.vals[phi]))
 				}
 			}
 			// 3. assume invariant at arbitrary iteration
@@ -355,6 +366,23 @@ func (ex *Exec) emitEdge(from, to *ssa.BasicBlock, pc string, st *State, back ma
 		// invariant preserved
 		li := loops[to]
 		ls := ex.c.Loops[li.ord]
+		for i, p := range to.Preds {
+			if p != from {
+				continue
+			}
+			for _, in := range to.Instrs {
+				phi, ok := in.(*ssa.Phi)
+				if !ok {
+					break
+				}
+				if phi.Comment == "rangeindex" && g.mode == "int" {
+					save := ex.pcCur
+					ex.pcCur = pc
+					ex.addObl(fmt.Sprintf("inv-keep@loop%d", li.ord), fmt.Sprintf("auto-rangeindex-%s@b%d", phi.Name(), from.Index), fmt.Sprintf("(<= (- 1) %s)", ex.val(phi.Edges[i])), pc, "range index >= -1 (built-in)", "")
+					ex.pcCur = save
+				}
+			}
+		}
 		if ls == nil {
 			return
 		}
